@@ -175,6 +175,11 @@ def jobs(tier, seed):
         js.append({'harness': 'stamp', 'weight': 60, 'opts': {'max_paths': 20000},
                    'cfg': {'kind': kind, 'rate': 8, 'table': t, 'flows': [0, 1, 0, 1, 1, 0, 0, 1][:m], 'sorts': 'int',
                            'burst': [0, 1, 1, 0, 1, 1, 1, 1][:m], 'smax': 2}})
+    # very long busy periods: 13 packets handed in at one instant (10 of one class, 3 of the other; sizes 1-2)
+    for kind, t in (('WFQ', {0: 1, 1: 1}), ('VC', {0: 1, 1: 2}), ('VC', {0: 4, 1: 1})):
+        js.append({'harness': 'stamp', 'weight': 80, 'opts': {'max_paths': 6000},
+                   'cfg': {'kind': kind, 'rate': 8, 'table': t, 'flows': [1, 1, 0, 1, 1, 1, 0, 1, 1, 1, 0, 1, 1], 'sorts': 'int',
+                           'burst': [0] + [1] * 12, 'smax': 2, 'static': kind == 'WFQ'}})
     # equal stamps, different arrival instants, creation times in the opposite order
     for kind, t in (('VC', {0: 2, 1: 1}), ('VC', {0: 1, 1: 1}), ('WFQ', {0: 1, 1: 1})):
         js.append({'harness': 'stamp', 'weight': 10,
